@@ -854,6 +854,9 @@ def run(tier, seed, build):
             res.count("resolve:" + im["outcome"]["k"] + (":" + str(im["outcome"].get("why")) if im["outcome"]["k"] == "none" else ""))
             if mm != im:
                 res.disagreements.append({"case": {"edge": ed.meta(), "files": p["files"]}, "impl": im, "model": mm})
+        # ---- the MULTI-file pipeline model (`Pipeline2.run2`) vs the real run with imports followed
+        from props import pipeline2
+        pipeline2.run_pipeline2_stage(res, random.Random(seed + 7206), 40 if tier == "quick" else 500, model)
         res.extra["pairs"] = len(pairs)
         res.extra["uncovered_cells"] = len(want)
     finally:
@@ -867,6 +870,11 @@ def run(tier, seed, build):
         "re-export cycles of a NAME (a: from b import f / b: from a import f) are not valid Python; only termination is demanded",
         "`import pkg; pkg.sub.f()` with nothing importing pkg.sub is not valid Python either (AttributeError); reported as a crash class",
         "follow level 1 (local modules), no exclusions: the blacklist / follow-level rungs are C12's",
+        "pipeline2 stage: the whole multi-file pipeline model (target + import BFS + star expansion + location-aware call "
+        "resolution + one shared store over all FileIrs) must reproduce the real in-process run (outcome, document, ordered "
+        "diagnostics, import_irs keys, every FileIr after result generation) on generated 2-4 module projects; file-system "
+        "facts (module name -> origin, blacklist / stdlib / pip verdicts, module_exists, derive_module_name_from_path) are "
+        "per-case parameters computed by the real locator functions",
     ]
     return res
 
